@@ -304,6 +304,8 @@ def ll2_cases(tier, seed):
             elif damage < 0.14:
                 i = r2.randrange(n)
                 rows[i] = [(c, (F(0) if c == i else v)) for c, v in rows[i]]
+            elif damage < 0.45:         # explicit zeros off the diagonal: the in-place removal of zeros really moves entries
+                rows = [[(c, (F(0) if (c != i and r2.random() < 0.4) else v)) for c, v in rw] for i, rw in enumerate(rows)]
             return _crs(n, n, rows)
         both("ilu0", mk)
     # skyline_lu (default ordering): constructor tables + one solve; n >= 1 (the empty matrix is the known finding
